@@ -20,7 +20,7 @@ P47 = 1 << 47
 
 META = {
     "property": "C11",
-    "proof_modules": ["PyodaProofs.C11", "PyodaProofs.C11Lemmas"],
+    "proof_modules": ["PyodaProofs.C11", "PyodaProofs.C11Lemmas", "PyodaProofs.GenAgreeC11"],
     "drivers": ["drv_offsettypes"],
     "theorems": [
         "Pyoda.C11.local_eq_instant_plus_offset",
@@ -43,8 +43,34 @@ META = {
         "Pyoda.C11.zoned_sub_is_elapsed",
         "Pyoda.C11.offsetTime_pack_unpack",
         "Pyoda.C11.offsetTime_unpack_pack",
+        # agreement of the definitions generated from the Python source (tools/py2lean.py) with the model
+        "Pyoda.GenAgree.C11.gen_OffsetTime_ofParts_eq", "Pyoda.GenAgree.C11.gen_OffsetTime_new_eq",
+        "Pyoda.GenAgree.C11.gen_OffsetTime_ofZeroOffset_eq", "Pyoda.GenAgree.C11.gen_OffsetTime_nanosecondOfDay_eq",
+        "Pyoda.GenAgree.C11.gen_OffsetTime_offsetSeconds_eq",
+        "Pyoda.GenAgree.C11.gen_OffsetTime_offsetNanoseconds_eq", "Pyoda.GenAgree.C11.gen_OffsetTime_timeOfDay_eq",
+        "Pyoda.GenAgree.C11.gen_OffsetTime_offset_eq", "Pyoda.GenAgree.C11.gen_OffsetTime_hour_eq",
+        "Pyoda.GenAgree.C11.gen_OffsetTime_minute_eq", "Pyoda.GenAgree.C11.gen_OffsetTime_second_eq",
+        "Pyoda.GenAgree.C11.gen_OffsetTime_millisecond_eq", "Pyoda.GenAgree.C11.gen_OffsetTime_tickOfDay_eq",
+        "Pyoda.GenAgree.C11.gen_OffsetTime_tickOfSecond_eq",
+        "Pyoda.GenAgree.C11.gen_OffsetTime_nanosecondOfSecond_eq", "Pyoda.GenAgree.C11.gen_OffsetTime_withOffset_eq",
+        "Pyoda.GenAgree.C11.gen_OffsetTime_beq_eq", "Pyoda.GenAgree.C11.gen_ODT_ofParts_eq",
+        "Pyoda.GenAgree.C11.gen_ODT_calendar_eq", "Pyoda.GenAgree.C11.gen_ODT_date_eq",
+        "Pyoda.GenAgree.C11.gen_ODT_toOffsetTime_eq", "Pyoda.GenAgree.C11.gen_ODT_nanosecondOfDay_eq",
+        "Pyoda.GenAgree.C11.gen_ODT_offset_eq", "Pyoda.GenAgree.C11.gen_ODT_ofInstant_eq",
+        "Pyoda.GenAgree.C11.gen_ODT_toElapsed_eq", "Pyoda.GenAgree.C11.gen_ODT_toInstant_eq",
+        "Pyoda.GenAgree.C11.gen_ODT_withOffset_eq", "Pyoda.GenAgree.C11.gen_ODT_withCalendar_eq",
+        "Pyoda.GenAgree.C11.gen_ODT_plus_eq", "Pyoda.GenAgree.C11.gen_ODT_plusMethod_eq",
+        "Pyoda.GenAgree.C11.gen_ODT_minusDur_eq", "Pyoda.GenAgree.C11.gen_ODT_minus_eq",
+        "Pyoda.GenAgree.C11.gen_ODT_beq_eq",
     ],
     "trusted_base": [
+        "translator tie (tools/py2lean.py): _offset_time.py (packing constructors, every accessor, with_offset, ==) and _offset_date_time.py (_ctor(instant, offset, calendar) and "
+        "_ctor(local_date, offset_time), calendar/date/offset/nanosecond_of_day, __to_elapsed_time_since_epoch, to_instant, with_offset with its two-day carries, with_calendar, "
+        "+/plus, - Duration, - OffsetDateTime, ==) are re-translated from the current source into lean/PyodaGen/C11.lean on every run and proved equal to PyodaModel/OffsetTypes.lean "
+        "(PyodaProofs/GenAgreeC11.lean). There `nod | (off << 47) = nod + off * 2^47` for 0 <= nod < 2^47 is a THEOREM about two's-complement or on unbounded ints (GenAgreeBits.pyOr_low47), "
+        "no longer only sampled. Trusted: the translator's semantics (self-test of C03); LocalDate as the model's (calendar, day number) with _ctor(days_since_epoch, calendar), plus_days, with_calendar, == "
+        "hand-mapped to the model functions (C09/C01 tie the real ones), Instant/Duration/Offset/LocalTime members hand-mapped to the model functions that GenAgreeC03/C10 prove equal to their generated code; "
+        "hypotheses of the agreements: a normalised nanosecond of day and offsets inside +-24 h (where the packing is the sum), valid stored offsets for ==",
         "CPython int arithmetic; `nod | (off << 47)` equals `nod + off * 2^47` for 0 <= nod < 2^47 (sampled by op otime.pack against the real packed field)",
         "calendar fields enter only through the day number (`LocalDate._days_since_epoch` / `LocalDate._ctor(days_since_epoch=, calendar=)`), whose round trip is C01",
         "tzdb zone behaviour is C04; the model sees a zone as the two-interval function named on the op line, the oracle asks the real zone",
